@@ -77,7 +77,8 @@ func c09BuildSplit(t *rapid.T) (c09SplitProg, bool) {
 	inSecond := map[string]bool{}
 	two := gen.Uniform(0, 1).Draw(t, "two-libraries") == 1
 	// diamond: main imports lb and ld, both import lc, main does not (lc is reached along two paths, never directly)
-	diamond := two && gen.Uniform(0, 1).Draw(t, "diamond") == 1
+	// (only for programs that end normally: the library function ld reaches is added for those only)
+	diamond := two && gen.Uniform(0, 1).Draw(t, "diamond") == 1 && ref.Status == 0
 	if two && !diamond && len(order) >= 2 {
 		k := gen.Uniform(1, len(order)-1).Draw(t, "second-size")
 		for _, n := range order[:k] {
